@@ -9,6 +9,7 @@ events fit the limit, every MUST-matching one is sent.  Multi-filter REQs: only 
 matching exactly one filter are attributed to it.
 """
 import json
+import time as _time
 
 from .. import rig as R, ref, gen, qcore, dump
 from ..orch import h
@@ -20,7 +21,8 @@ RULE = (
     "cases = (backend, max_limit in {7, 25} - one worker process per value because the relay captures it at import "
     "time -, seeded store of 30-90 events concentrated on few kinds/authors/tag values so that filters have more, "
     "exactly as many and fewer matches than their limit, REQ of 1-5 well-formed filters with limit in "
-    "{absent,0,1,2,cap-1,cap,cap+1,1e9}). Non-trivial = some filter of the REQ has more possibly-matching stored events "
+    "{absent,0,1,2,cap-1,cap,cap+1,1e9}; stores include post-dated events (ahead of the relay's clock), some filters carry "
+    "an empty value list beside usable conditions). Non-trivial = some filter of the REQ has more possibly-matching stored events "
     "than its effective limit (truncation really had to happen) or exactly/one fewer than the limit. Distinct = distinct "
     "(backend, max_limit, store seed, canonical filter list)."
 )
@@ -30,7 +32,7 @@ ASSUMPTIONS = [
     "for REQs with several filters only events matching exactly one filter are attributed (conservative)",
 ]
 MIN_NONTRIVIAL = {"quick": 300, "thorough": 3000}
-REQUIRED_COUNTERS = ["reqs_truncating", "cap_checks", "recency_checks"]
+REQUIRED_COUNTERS = ["reqs_truncating", "cap_checks", "recency_checks", "post_dated_events", "filters_with_empty_condition"]
 SHARD_TIMEOUT = {"quick": 500, "thorough": 3000}
 
 
@@ -117,6 +119,15 @@ def judge(backend, cap, filters, delivered, stored, plans, counters):
             viols.append({"key": "%s/truncated/limit-%s/%s" % (backend, limit_class(f, cap), mech),
                           "msg": "filter %s has %d possibly-matching stored events (effective limit %d) yet %d must-matching ones were not sent"
                                  % (json.dumps(f)[:300], len(may), eff, len(omitted))})
+    # whatever the attribution: a REQ is never sent more stored events than its filters' limits add up to
+    total = sum(1 for ev in delivered if isinstance(ev, dict) and ev.get("id") in stored)
+    allowed = sum(eff_limit(f, cap) for f in filters)
+    counters["cap_checks"] = counters.get("cap_checks", 0) + 1
+    if total > allowed:
+        null = any(any(isinstance(v, list) and not v for v in f.values()) for f in filters)
+        viols.append({"key": "%s/cap/total/%s%s" % (backend, "single" if single else "multi-filter", "/unmatchable-condition" if null else ""),
+                      "msg": "REQ %s (max_limit %d) was sent %d stored events; its filters' effective limits add up to %d"
+                             % (json.dumps(filters)[:300], cap, total, allowed)})
     return viols, nontrivial
 
 
@@ -139,6 +150,11 @@ async def run_store(backend, cap, store_seed, nreqs, counters, coverage, explici
             for _ in range(u.rng.randint(30, 90)):
                 events.append(u.event(key=u.rng.choice(keys), kind=u.rng.choice([1, 1, 1, 7, 7, 255]),
                                       created_at=gen.T0 + u.rng.randint(0, 40)))
+            # a few post-dated ones (ahead of the relay's clock): they are the newest
+            now = int(_time.time())
+            for _ in range(3):
+                events.append(u.event(key=u.rng.choice(keys), kind=u.rng.choice([1, 1, 7]), created_at=now + u.rng.choice([600, 3600, 86400 * 30])))
+            counters["post_dated_events"] = counters.get("post_dated_events", 0) + 3
         await qcore.load_store(rig, conn, events)
         stored = dump.stored_events(dump.dump(rig))
         counters["stores"] = counters.get("stores", 0) + 1
@@ -156,6 +172,10 @@ async def run_store(backend, cap, store_seed, nreqs, counters, coverage, explici
                     f.pop("ids", None) if u.rng.random() < 0.5 else None
                     if not [k for k in f if k != "limit"]:
                         f["kinds"] = [1]
+                    if u.rng.random() < 0.08:
+                        # a condition without values next to usable ones: the filter matches nothing, its limit still binds
+                        f[u.rng.choice([k for k in ("#e", "#p", "kinds", "authors", "ids") if k not in f] or ["#z"])] = []
+                        counters["filters_with_empty_condition"] = counters.get("filters_with_empty_condition", 0) + 1
                     fs.append(f)
                 reqs.append(fs)
         for filters in reqs:
